@@ -418,13 +418,168 @@ theorem fromV3FormPropO_eq {V : Type} (R : List String) (p : Param2 V) (hnb : p.
     simp only [hit, Option.all_some] at hnb
     simp [clearReq, fromV3FormPropO, fromV3FormProp, kidItems, fromV3SO_eq [] (toV3S s) (noBinary3_toV3S s hnb)]
 
+/-- a converted schema without `x-nullable` (outside additionalProperties sub-schemas) has no `nullable` a
+    FromV3SchemaRef pass could clear: a second pass reads what the first one read -/
+theorem dropNullable_toV3S {V : Type} (s : Sch V) (h : hasXnull s = false) : dropNullable (toV3S s) = toV3S s := by
+  refine (Sch.induct (P := fun s => hasXnull s = false → dropNullable (toV3S s) = toV3S s)
+    (Q := fun ks => hasXnullKids ks = false → dropNullableKids (toV3Kids ks) = toV3Kids ks) ?_ ?_ ?_ ?_).1 s h
+  · intro k n _; simp [toV3S, dropNullable]
+  · intro hd kids ih h
+    simp only [hasXnull, Bool.or_eq_false_iff] at h
+    simp only [toV3S, dropNullable, ih h.2]
+    simp [toV3Hd, h.1]
+  · intro _; simp [toV3Kids, dropNullableKids]
+  · intro sl c rest ihc ihr h
+    simp only [hasXnullKids, Bool.or_eq_false_iff] at h
+    by_cases hs : sl = Slot.addl
+    · simp [toV3Kids, dropNullableKids, hs, ihr h.2]
+    · simp only [hs, if_false] at h
+      simp [toV3Kids, dropNullableKids, hs, ihc h.1, ihr h.2]
+
+/-- the form field fromV3RequestBodies keeps (the one of the last form media type) is the one a single pass
+    reads — outside F-C17-16 (both form media types and `x-nullable` inside the items) -/
+theorem fromV3FormPropT_eq {V : Type} (tw : Bool) (R : List String) (p : Param2 V) (hnb : p.items.all noBinary2 = true)
+    (hx : tw = false ∨ p.items.any hasXnull = false) :
+    fromV3FormPropT tw [] R p.name (clearReq (toV3FormProp p)) = fromV3FormProp R p.name (clearReq (toV3FormProp p)) := by
+  rw [← fromV3FormPropO_eq R p hnb]
+  unfold toV3FormProp
+  cases hit : p.items with
+  | none => simp [clearReq, fromV3FormPropT, fromV3FormPropO, kidItems]
+  | some s =>
+    rcases hx with hx | hx
+    · subst hx; simp [clearReq, fromV3FormPropT, fromV3FormPropO, kidItems]
+    · simp only [hit, Option.any_some] at hx
+      simp [clearReq, fromV3FormPropT, fromV3FormPropO, kidItems, dropNullable_toV3S s hx]
+
+/-- the update statements of fromV3RequestBodies are the code's: `formParameters` is replaced by
+    FromV3RequestBodyFormData, `bodyOrRefParameters` is appended to -/
+theorem requestBodiesUpdates_is_code : KinModel.Gen.requestBodiesUpdates = requestBodiesUpdates := by decide
+
+/-- **form fields are not multiplied by the media types**: whatever the passes of the media-type loop compute, the
+    code's update statement of `formParameters` keeps exactly the last pass (with `append` in its place a form body
+    under both form media types would yield every form parameter twice) -/
+theorem formParameters_last_pass {α : Type} (passes : List (List α)) (last : List α) :
+    loopResult (updatesOf KinModel.Gen.requestBodiesUpdates "formParameters") (passes ++ [last]) = last := by
+  rw [requestBodiesUpdates_is_code]
+  have : updatesOf requestBodiesUpdates "formParameters" = ["replace:FromV3RequestBodyFormData"] := by decide
+  rw [this]
+  simp [loopResult, List.foldl_append]
+
+theorem dropNullable_idem {V : Type} (s : Sch V) : dropNullable (dropNullable s) = dropNullable s := by
+  refine (Sch.induct (P := fun s => dropNullable (dropNullable s) = dropNullable s)
+    (Q := fun ks => dropNullableKids (dropNullableKids ks) = dropNullableKids ks) ?_ ?_ ?_ ?_).1 s
+  · intro k n; simp [dropNullable]
+  · intro hd kids ih; simp [dropNullable, ih]
+  · simp [dropNullableKids]
+  · intro sl c rest ihc ihr
+    by_cases hs : sl = Slot.addl
+    · simp [dropNullableKids, hs, ihr]
+    · simp [dropNullableKids, hs, ihc, ihr]
+
+theorem kidItems_dropItems {V : Type} (kids : List (Slot × Sch V)) :
+    kidItems (kids.map (fun (sc : Slot × Sch V) => (sc.1, if sc.1 = Slot.items then dropNullable sc.2 else sc.2))) =
+    (kidItems kids).map dropNullable := by
+  induction kids with
+  | nil => rfl
+  | cons a r ih =>
+    obtain ⟨sl, c⟩ := a
+    by_cases hs : sl = Slot.items
+    · simp [kidItems, hs]
+    · simp [kidItems, hs, ih]
+
+/-- a pass over a form field an earlier pass has visited reads what a second pass reads (FromV3SchemaRef's reset
+    of `nullable` is idempotent) -/
+theorem fromV3FormPropT_dropItems {V : Type} (tw : Bool) (bin R : List String) (name : String) (s : Sch V) :
+    fromV3FormPropT tw bin R name (dropItemsNullable s) = fromV3FormPropT true bin R name s := by
+  cases s with
+  | ref k n => simp [dropItemsNullable, fromV3FormPropT]
+  | node h kids =>
+    simp only [dropItemsNullable, fromV3FormPropT, kidItems_dropItems]
+    cases kidItems kids with
+    | none => simp
+    | some it => cases tw <;> simp [dropNullable_idem]
+
+theorem fromV3FormFields_dropItems {V : Type} (tw : Bool) (bin R : List String) (kids : List (Slot × Sch V)) :
+    fromV3FormFields tw bin R (kids.map (fun (sc : Slot × Sch V) => (sc.1, dropItemsNullable sc.2))) =
+    fromV3FormFields true bin R kids := by
+  induction kids with
+  | nil => rfl
+  | cons a r ih =>
+    obtain ⟨sl, c⟩ := a
+    simp only [fromV3FormFields] at ih ⊢
+    cases sl <;> simp [fromV3FormPropT_dropItems, ih]
+
+theorem formPasses_fold {V : Type} (bin R : List String) (n : Nat) :
+    ∀ (kids : List (Slot × Sch V)) (init : List (PRef2 V)),
+      (formPasses bin R (n + 1) kids).foldl (fun _ r => r) init = fromV3FormFields (decide (n + 1 ≥ 2)) bin R kids := by
+  induction n with
+  | zero => intro kids init; simp [formPasses]
+  | succ n ih =>
+    intro kids init
+    rw [formPasses, List.foldl_cons, ih]
+    rw [fromV3FormFields_dropItems]
+    simp
+
+/-- **the media-type loop of fromV3RequestBodies, any number of form media types** (a sequence of
+    FromV3RequestBodyFormData passes over one form schema object, each leaving `nullable` cleared on the items it
+    visited, combined by the code's own update statement of `formParameters`): the form parameters that come back are
+    those of one pass — each form field once — read from the schema as the first pass left it when there are two
+    or more passes. This is what `fromV3Body` uses (`fromV3FormFields (formTwice mimes)`). -/
+theorem formLoop_any_number_of_passes {V : Type} (bin R : List String) (n : Nat) (kids : List (Slot × Sch V)) :
+    loopResult (updatesOf KinModel.Gen.requestBodiesUpdates "formParameters") (formPasses bin R (n + 1) kids) =
+    fromV3FormFields (decide (n + 1 ≥ 2)) bin R kids := by
+  rw [requestBodiesUpdates_is_code]
+  have : updatesOf requestBodiesUpdates "formParameters" = ["replace:FromV3RequestBodyFormData"] := by decide
+  rw [this]
+  simp only [loopResult, beq_self_eq_true, if_true]
+  exact formPasses_fold bin R n kids []
+
+/-- the loop over the form media types of a request body is what the model of `fromV3Body` computes in one step -/
+theorem formLoop_is_fromV3Body {V : Type} (bin R : List String) (mimes : List String) (kids : List (Slot × Sch V))
+    (h : (mimes.filter isFormMime).length ≠ 0) :
+    loopResult (updatesOf KinModel.Gen.requestBodiesUpdates "formParameters")
+      (formPasses bin R (mimes.filter isFormMime).length kids) =
+    fromV3FormFields (formTwice mimes) bin R kids := by
+  cases hn : (mimes.filter isFormMime).length with
+  | zero => exact absurd hn h
+  | succ n =>
+    rw [formLoop_any_number_of_passes]
+    simp [formTwice, hn]
+
+/-- witness (F-C17-16, FormItemsNullableLost): an array form parameter whose items carry `x-nullable: true`, under
+    both form media types — the form field kept by fromV3RequestBodies is the one of the second pass, whose items
+    have lost `x-nullable`; under one form media type they keep it -/
+theorem formItemsTwice_witness :
+    let p : Param2 Nat := { name := "l", loc := "formData", required := false, cons := { ty := some "array" },
+                            items := some (.node { ty := some "string", xnull := true } []), schema := none }
+    let back : Bool → Option Bool := fun tw =>
+      match fromV3FormPropT tw [] [] "l" (clearReq (toV3FormProp p)) with
+      | .val q => q.items.map hasXnull
+      | .ref _ _ => none
+    formItemsTwice ["multipart/form-data", "application/x-www-form-urlencoded"] (.val p) = true ∧
+    formItemsTwice ["multipart/form-data"] (.val p) = false ∧
+    back false = some true ∧ back true = some false := by
+  simp [formItemsTwice, formTwice, isFormMime, hasXnull, hasXnullKids, fromV3FormPropT, clearReq, toV3FormProp, kidItems,
+    toV3S, toV3Kids, toV3Hd, fileToBinary, dropNullable, dropNullableKids, fromV3SO, fromV3Hd, fromV3KidsO, conv]
+
+/-- non-vacuity of `formBody_back`'s hypothesis outside F-C17-16: both form media types, an array form parameter
+    whose items have constraints but no `x-nullable` -/
+example :
+    let p : Param2 Nat := { name := "l", loc := "formData", required := true, cons := { ty := some "array" },
+                            items := some (.node { ty := some "string" } []), schema := none }
+    formTwice ["application/x-www-form-urlencoded", "multipart/form-data"] = true ∧
+    formItemsTwice ["application/x-www-form-urlencoded", "multipart/form-data"] (.val p) = false ∧
+    inputOKFBack ["application/x-www-form-urlencoded", "multipart/form-data"] (.val p) = true := by
+  decide
+
 /-- **the form fields of a converted operation come back as the form parameters** — each with its name,
     requiredness (read back from the object schema), type / format and constraints -/
 theorem formBody_back {V : Type} (env : Env3 V) (cs : List String) (fps : List (Param2 V)) (sh : Bool) (nm : String)
     (hn : nodupKeys (fps.map (fun p => (p.name, toV3FormProp p))) = true)
     (hl : ∀ p ∈ fps, p.loc = "formData") (hi3 : ∀ p ∈ fps, itemsOK3 p.items = true)
     (hib : ∀ p ∈ fps, itemsOKBack p.items = true) (hnb : ∀ p ∈ fps, p.items.all noBinary2 = true)
-    (hf : ∀ p ∈ fps, formFmtOK p = true) (hm : cs.any isFormMime = true) :
+    (hf : ∀ p ∈ fps, formFmtOK p = true) (hm : cs.any isFormMime = true)
+    (hx : ∀ p ∈ fps, formItemsTwice cs (.val p) = false) :
     (fromV3Body [] sh nm (.val (formBody env cs (formMap (fps.map (fun p => (p.name, toV3FormProp p))))))).map inputA2 =
     fps.map (fun p => inputA2 (.val p)) := by
   obtain ⟨hmi, hsc, hnd3⟩ := formBody_shape env cs fps hn
@@ -432,7 +587,7 @@ theorem formBody_back {V : Type} (env : Env3 V) (cs : List String) (fps : List (
     cases cs with
     | nil => simp at hm
     | cons _ _ => rfl
-  simp only [fromV3Body, hmi, hsc, hne, Bool.false_eq_true, if_false, hm, if_true, List.filterMap_map, Function.comp_def]
+  simp only [fromV3Body, fromV3FormFields, hmi, hsc, hne, Bool.false_eq_true, if_false, hm, if_true, List.filterMap_map, Function.comp_def]
   rw [filterMap_some_fun, List.map_map]
   apply List.map_congr_left
   intro p hp
@@ -440,7 +595,11 @@ theorem formBody_back {V : Type} (env : Env3 V) (cs : List String) (fps : List (
   have hc := required_names (fps.map (fun p => (p.name, toV3FormProp p, propRequired p.name (toV3FormProp p)))) hnd3
     p.name (toV3FormProp p) (propRequired p.name (toV3FormProp p)) (List.mem_map.mpr ⟨p, hp, rfl⟩)
   simp only [List.map_map, Function.comp_def] at hc
-  simp only [Function.comp_apply, fromV3FormPropO_eq _ p (hnb p hp)]
+  have hx' : formTwice cs = false ∨ p.items.any hasXnull = false := by
+    have := hx p hp
+    simp only [formItemsTwice, hl p hp, beq_self_eq_true, Bool.true_and, Bool.and_eq_false_iff] at this
+    exact this
+  simp only [Function.comp_apply, fromV3FormPropT_eq _ _ p (hnb p hp) hx']
   exact roundtripForm _ p (hl p hp) (by rw [hc, hreq]) (hib p hp) (hf p hp)
 
 theorem formVals_cons_back {V : Type} (cs : List String) (q : PRef2 V) (rest : List (PRef2 V))
@@ -465,7 +624,8 @@ theorem inputs_split3_back {V : Type} (cbs : List (String × BRef3 V)) (bks : Li
       (ps2.map inputA2 ++
         ((splitP3 (l.map (toV3P { cbodies := cbs, cschemas := [] } cs))).2.1.flatMap (fromV3Body [] false "body")).map inputA2 ++
         (formVals l).map (fun p => inputA2 (.val p))).Perm (l.map inputA2)) ∧
-    (∀ p ∈ formVals l, itemsOKBack p.items = true ∧ p.items.all noBinary2 = true ∧ formFmtOK p = true) := by
+    (∀ p ∈ formVals l, itemsOKBack p.items = true ∧ p.items.all noBinary2 = true ∧ formFmtOK p = true ∧
+      formItemsTwice cs (.val p) = false) := by
   induction l with
   | nil => exact ⟨⟨[], rfl, by simp [splitP3, formVals]⟩, by simp [formVals]⟩
   | cons q rest ih =>
@@ -486,12 +646,13 @@ theorem inputs_split3_back {V : Type} (cbs : List (String × BRef3 V)) (bks : Li
           have i2' := i2
           simp only [List.append_assoc] at i2'
           exact (List.perm_middle).trans (List.Perm.cons _ i2')
-    · have hf : formOKBack q = true := by
+    · have hf2 : formOKBack q = true ∧ formItemsTwice cs q = false := by
         have := h.1
-        simp only [inputOKFBack, Bool.or_eq_true] at this
+        simp only [inputOKFBack, Bool.or_eq_true, Bool.and_eq_true, Bool.not_eq_true'] at this
         rcases this with h1 | h1
         · exact absurd h1 hq
         · exact h1
+      obtain ⟨hf, hft⟩ := hf2
       cases q with
       | ref _ _ => simp [formOKBack] at hf
       | val p =>
@@ -506,7 +667,7 @@ theorem inputs_split3_back {V : Type} (cbs : List (String × BRef3 V)) (bks : Li
         · intro p' hp'
           simp only [formVals, hf.1.1.1, if_true, List.mem_cons] at hp'
           rcases hp' with rfl | hp'
-          · exact ⟨hf.1.1.2, hf.1.2, hf.2⟩
+          · exact ⟨hf.1.1.2, hf.1.2, hf.2, hft⟩
           · exact i4 p' hp'
 
 /-- **every operation with a body parameter or form parameters comes back saying the same** -/
@@ -567,7 +728,7 @@ theorem op_inputs_roundtrip {V : Type} (cbs : List (String × BRef3 V)) (bks : L
       · simp [opA2, meta_roundtrip]
     | cons f fs =>
       have hfi := hform hnd (fun p hp => (s4 p hp).1) (fun p hp => (s4 p hp).2) (fun p hp => (b4 p hp).1)
-        (fun p hp => (b4 p hp).2.1) (fun p hp => (b4 p hp).2.2) hmime
+        (fun p hp => (b4 p hp).2.1) (fun p hp => (b4 p hp).2.2.1) hmime (fun p hp => (b4 p hp).2.2.2)
       rw [hfv] at hfi
       simp only [hfv, List.flatMap_nil, List.map_nil, List.append_nil] at b2 ⊢
       refine ⟨_, rfl, ?_⟩
